@@ -66,7 +66,12 @@ type reqAt struct {
 	st   lockState
 }
 
+// requesters: pkg.name of every function that (transitively, by simple name inside its package) makes a
+// blocking request: a call through a field named …pathManager / .path, or a channel send/receive
+var requesters = map[string]bool{}
+
 type lockWalker struct {
+	pkg       string
 	reqs      []reqAt
 	recv, typ string
 	defers    lockState // deferred unlocks registered so far (applied at exits)
@@ -324,9 +329,13 @@ func (w *lockWalker) noteRequests(n ast.Node, in []lockState) {
 		case *ast.CallExpr:
 			if s, ok := t.Fun.(*ast.SelectorExpr); ok {
 				r := text(s.X)
-				if strings.HasSuffix(r, "athManager") {
+				if strings.HasSuffix(r, "athManager") || strings.HasSuffix(r, ".path") {
 					what = r + "." + s.Sel.Name
+				} else if requesters[w.pkg+"."+s.Sel.Name] {
+					what = "call " + s.Sel.Name
 				}
+			} else if id, ok := t.Fun.(*ast.Ident); ok && requesters[w.pkg+"."+id.Name] {
+				what = "call " + id.Name
 			}
 		case *ast.SendStmt:
 			what = "send " + text(t.Chan)
@@ -352,8 +361,8 @@ type lockRow struct {
 	across  []string // blocking requests made while the mutex is held
 }
 
-func analyseLocks(name, recv, typ string, body *ast.BlockStmt, rows *[]lockRow) {
-	w := &lockWalker{recv: recv, typ: typ, defers: lockState{}, loopsOK: true}
+func analyseLocks(pkg, name, recv, typ string, body *ast.BlockStmt, rows *[]lockRow) {
+	w := &lockWalker{pkg: pkg, recv: recv, typ: typ, defers: lockState{}, loopsOK: true}
 	f := w.block(body.List, []lockState{{}})
 	for _, st := range f.fall {
 		w.exit(st)
@@ -402,7 +411,7 @@ func analyseLocks(name, recv, typ string, body *ast.BlockStmt, rows *[]lockRow) 
 		*rows = append(*rows, r)
 	}
 	for i, fl := range w.lits {
-		analyseLocks(fmt.Sprintf("%s.func%d", name, i+1), recv, typ, fl.Body, rows)
+		analyseLocks(pkg, fmt.Sprintf("%s.func%d", name, i+1), recv, typ, fl.Body, rows)
 	}
 }
 
@@ -431,11 +440,61 @@ func lockTable(repo string) []lockRow {
 	}
 	var rows []lockRow
 	fs := token.NewFileSet()
+	var parsedFiles []*ast.File
 	for _, fp := range files {
 		f, err := parser.ParseFile(fs, fp, nil, 0)
 		if err != nil {
 			die("parse: %v", err)
 		}
+		parsedFiles = append(parsedFiles, f)
+	}
+	// pass 1: who makes blocking requests (fixpoint over calls by simple name inside the package)
+	type fnBody struct {
+		pkg, name string
+		body      *ast.BlockStmt
+	}
+	var all []fnBody
+	for _, f := range parsedFiles {
+		for _, d := range f.Decls {
+			if fd, ok := d.(*ast.FuncDecl); ok && fd.Body != nil {
+				all = append(all, fnBody{f.Name.Name, fd.Name.Name, fd.Body})
+			}
+		}
+	}
+	for changed := true; changed; {
+		changed = false
+		for _, fb := range all {
+			if requesters[fb.pkg+"."+fb.name] {
+				continue
+			}
+			req := false
+			ast.Inspect(fb.body, func(n ast.Node) bool {
+				switch t := n.(type) {
+				case *ast.SendStmt:
+					req = true
+				case *ast.UnaryExpr:
+					if t.Op == token.ARROW {
+						req = true
+					}
+				case *ast.CallExpr:
+					if s, ok := t.Fun.(*ast.SelectorExpr); ok {
+						r := text(s.X)
+						if strings.HasSuffix(r, "athManager") || strings.HasSuffix(r, ".path") || requesters[fb.pkg+"."+s.Sel.Name] {
+							req = true
+						}
+					} else if id, ok := t.Fun.(*ast.Ident); ok && requesters[fb.pkg+"."+id.Name] {
+						req = true
+					}
+				}
+				return !req
+			})
+			if req {
+				requesters[fb.pkg+"."+fb.name] = true
+				changed = true
+			}
+		}
+	}
+	for _, f := range parsedFiles {
 		pkg := f.Name.Name
 		for _, d := range f.Decls {
 			fd, ok := d.(*ast.FuncDecl)
@@ -452,17 +511,69 @@ func lockTable(repo string) []lockRow {
 				name = pkg + "." + typ + "." + fd.Name.Name
 				typ = pkg + "." + typ
 			}
-			analyseLocks(name, recv, typ, fd.Body, &rows)
+			analyseLocks(pkg, name, recv, typ, fd.Body, &rows)
+		}
+	}
+	// the event loops (`run` with a `for { select … }`) and the lock-taking functions they call directly
+	lockTaking := map[string][]string{} // pkg.simpleName -> row function names
+	for _, r := range rows {
+		parts := strings.Split(r.fn, ".")
+		k := parts[0] + "." + parts[len(parts)-1]
+		lockTaking[k] = addUniqS(lockTaking[k], r.fn)
+	}
+	for _, f := range parsedFiles {
+		pkg := f.Name.Name
+		for _, d := range f.Decls {
+			fd, ok := d.(*ast.FuncDecl)
+			if !ok || fd.Body == nil || fd.Name.Name != "run" || fd.Recv == nil {
+				continue
+			}
+			isLoop := false
+			ast.Inspect(fd.Body, func(n ast.Node) bool {
+				if fs, ok := n.(*ast.ForStmt); ok && fs.Cond == nil {
+					for _, st := range fs.Body.List {
+						if _, ok := st.(*ast.SelectStmt); ok {
+							isLoop = true
+						}
+					}
+				}
+				return true
+			})
+			if !isLoop {
+				continue
+			}
+			name := pkg + "." + baseType(fd.Recv.List[0].Type) + ".run"
+			loopNames = append(loopNames, name)
+			ast.Inspect(fd.Body, func(n ast.Node) bool {
+				if _, ok := n.(*ast.FuncLit); ok {
+					return false
+				}
+				if c, ok := n.(*ast.CallExpr); ok {
+					if s, ok := c.Fun.(*ast.SelectorExpr); ok {
+						for _, callee := range lockTaking[pkg+"."+s.Sel.Name] {
+							loopCalls = append(loopCalls, [2]string{name, callee})
+						}
+					}
+				}
+				return true
+			})
 		}
 	}
 	return rows
 }
+
+var (
+	loopNames []string
+	loopCalls [][2]string
+)
 
 func emitLocks(w func(string, ...any), rows []lockRow) {
 	fnID := map[string]int{}
 	var fnNames []string
 	muID := map[string]int{}
 	var muNames []string
+	objID := map[string]int{}
+	var objNames []string
 	id := func(m map[string]int, l *[]string, s string) int {
 		if v, ok := m[s]; ok {
 			return v
@@ -482,8 +593,9 @@ func emitLocks(w func(string, ...any), rows []lockRow) {
 		for j, e := range r.exits {
 			es[j] = fmt.Sprintf("(%d : Int)", e)
 		}
-		w("  { fn := %d, mutex := %d, exits := [%s], loopsBalanced := %v, heldAcrossRequest := %v }%s  -- %s %s %s",
-			id(fnID, &fnNames, r.fn), id(muID, &muNames, r.mutex), strings.Join(es, ", "), r.loopsOK, len(r.across) > 0, sep,
+		w("  { fn := %d, mutex := %d, lockObj := %d, exits := [%s], loopsBalanced := %v, heldAcrossRequest := %v }%s  -- %s %s %s",
+			id(fnID, &fnNames, r.fn), id(muID, &muNames, r.mutex), id(objID, &objNames, strings.TrimSuffix(r.mutex, "(R)")),
+			strings.Join(es, ", "), r.loopsOK, len(r.across) > 0, sep,
 			r.fn, r.mutex, strings.Join(r.across, " | "))
 	}
 	w("]")
@@ -502,5 +614,26 @@ func emitLocks(w func(string, ...any), rows []lockRow) {
 	for i, n := range muNames {
 		w("def MU_%s : Nat := %d", strings.NewReplacer(".", "_", "(R)", "_R").Replace(n), i)
 	}
+	w("def lockObjNames : List String := %s", q(objNames))
+	for i, n := range objNames {
+		w("def LO_%s : Nat := %d", strings.NewReplacer(".", "_").Replace(n), i)
+	}
+	w("/-- the event loops (`run` containing `for { select … }`) -/")
+	w("def loopNames : List String := %s", q(loopNames))
+	for i, n := range loopNames {
+		w("def LP_%s : Nat := %d", strings.NewReplacer(".", "_").Replace(n), i)
+	}
+	w("/-- (loop, function): the loop calls this lock-taking function directly -/")
+	var lc []string
+	for _, c := range loopCalls {
+		li := 0
+		for i, n := range loopNames {
+			if n == c[0] {
+				li = i
+			}
+		}
+		lc = append(lc, fmt.Sprintf("(%d, %d)", li, fnID[c[1]]))
+	}
+	w("def loopLockCalls : List (Nat × Nat) := [%s]", strings.Join(lc, ", "))
 	w("")
 }
